@@ -25,6 +25,19 @@ def handle (op : String) (a : Json) : Option R :=
       let (recs, fs') := writeItems fresh 0 fs items
       pure (Json.mkObj [("loaded", jList ((loadAll recs).map jLoaded)),
                         ("files", jList (fs'.map (fun (f, c) => Json.arr #[jStr f, jNat c])))])
+  | "c18.rewrite" => some do
+      -- the same path written twice (first `before`, then `items`): what a reader gets afterwards
+      let before ← (← getArr a "before").toList.mapM itemOf
+      let items ← (← getArr a "items").toList.mapM itemOf
+      let fresh : Nat → String := fun i => s!"new{i}"
+      let (r1, _) := writeItems fresh 0 [] before
+      let (r2, _) := writeItems (fun i => s!"again{i}") 0 [] items
+      let d : Disk := Disk.write (Disk.write [] "out" r1) "out" r2
+      match Disk.read d "out" with
+      | some rs => pure (Json.mkObj [("loaded", jList ((loadAll rs).map jLoaded))])
+      | none => throw "NoSuchPath"
+  | "c18.keptAt" => some do
+      pure (Json.mkObj [("kept", Json.bool (keptAt (← getNat a "d") (← getNat a "n") (← getNat a "x")))])
   | "c18.refPos" => some do
       pure (jInts (refPos (← getNatList a "ms") (← getIntList a "P0")))
   | _ => none
